@@ -20,6 +20,20 @@ Operations
            HashMap.from_cell), TL-B parse attempts (MessageAny, Account, StateInit, Transaction, VmStack, ...),
            VmStack.serialize of a caller-held list of pooled cells / slices / builders / ints / VmTuple (nested),
            HashMap(..., map_=caller's dict).serialize() with pooled cells / slices as values
+  reuse    a fourth pool holds HashMap OBJECTS the caller keeps: hm_new (map_= / set_int_key / HashMap.from_cell of a pooled
+           cell: values are then the slices the library hands out), hm_set (new key or an existing one), hm_edit (touch = a
+           mutable VALUE - slice, builder, list - changes in place while the map is not touched; del; the public map / the
+           serializer rebound to an equal one; salt = state the serializer closes over changes), hm_ser (serialize twice on
+           the object AND once on an equal HashMap that was never serialized: all three agree).  Values may be pooled
+           slices / builders, so ordinary load / store ops on those change a dictionary value through the caller's other
+           handle.  VmStack.serialize: after the two calls every caller-held list / VmTuple gets one more entry and is
+           serialized again, against equal containers that were never serialized.
+  reenter  `nested`: an outer dictionary whose value serializer makes a library call of its own for the leaves marked to
+           nest - HashMap.serialize with another serializer (uint values / cell values with the default serializer), with
+           the SAME serializer (recursive), HashMap.parse, VmStack.serialize, to_boc + one_from_boc, order() - against the
+           same dictionary written with these inner objects produced beforehand (flat, nested, flat again; a fixed plain
+           dictionary before / after), and the result read back with nested value deserializers against the same reads made
+           one after the other.
 
 Invariant, checked after EVERY op
   (I1) every pooled cell equals the snapshot taken when it entered the pool: hash, bits.to01(), type_, child hashes,
@@ -39,12 +53,18 @@ Invariant, checked after EVERY op
        every call, whatever was called before; the same call repeated gives the same sequence.
   (I5) calling hash / get_hash / to_boc / calculate_representation_hash / repr / str / a parse attempt /
        VmStack.serialize / HashMap.serialize twice in a row gives identical results.
+  (I6) "no state is carried between calls" for objects and callbacks: a HashMap object that was serialized before gives what
+       an equal, never serialized HashMap gives ('HashMap.serialize/history-dependent'); containers serialized before
+       and extended in place give what equal fresh containers give ('VmStack.serialize/history-dependent'); a call
+       whose callback calls the library gives what it gives when the callback only stores prepared objects
+       ('HashMap.serialize/depends-on-a-call-made-inside-its-value-serializer', 'HashMap.parse/depends-on-a-call-made-
+       inside-its-value-deserializer', 'HashMap.serialize/history-dependent/after-a-nested-call').
 
 Sub-check `history-independence` ("no state carried between calls"): case = {'setup', 'obs', 'prefix'}.  World 1 runs
 setup, observes (result R1), runs the prefix — whose mutating ops are kept away from the slices/builders the
 observation reads (they are frozen) — and observes again (R2).  World 2 is rebuilt from scratch: setup, prefix, first
 observation (R3).  R1 == R2 == R3 is required (to_boc bytes, order sequence, parsed dictionary as key -> remaining
-bits/child hashes or "raised", hash of the VmStack / HashMap cell).
+bits/child hashes or "raised", hash of the VmStack / HashMap / nested-dictionary cell).
 
 Deliberately NOT asserted
   * effects of the CALLER mutating cell.bits / cell.refs directly, or mutating the bitarray / list it passed to the
@@ -56,6 +76,8 @@ Deliberately NOT asserted
   * correctness of hashes, serialisation layout, stored/loaded values, dictionary or TL-B decoding (C01-C07, C09, C17);
     the only cross-check is "the serialisation in the snapshot parses back to the same hash" (see I1);
   * that cell.copy() / slice.to_cell() produce cells equal to their source (only that sources do not change);
+  * callbacks that edit the object being serialized / parsed, augmented dictionaries (x / y deserializers), key serializers,
+    TL-B objects kept and re-serialized after a field edit; a serializer whose OUTPUT depends on hidden state it changes itself;
   * exotic cells (only ordinary cells are generated); identity of returned objects; order(d) with a non-empty d.
   * A memo keyed on the full cell hash, or two cells sharing one bitarray / refs list that no library operation ever
     mutates (e.g. Cell.copy() without copying), is not observable and not a violation of the statement.
@@ -74,12 +96,20 @@ RULE = ('case = program of plain-data ops over pools of cells/slices/builders (i
         'from_cell, to_builder, copy, slice.to_cell/copy/to_builder, builder.to_slice/end_cell), mutate (slice loads, '
         'builder stores incl. after end_cell and into cell.to_builder()), observe (hash, get_hash, to_boc x 6 option '
         'sets, order with/without dict, representation hash, repr/str, dict / TL-B parse attempts, VmStack.serialize, '
-        'HashMap.serialize). 3..30 ops (quick) / ..50 (thorough), macros force derive->mutate, end_cell->store, '
-        'order;order and VmTuple sequences. The invariant (all cells == snapshot, untouched slices/builders unchanged, '
+        'HashMap.serialize), reuse (pool of HashMap objects: new via map_/set/from_cell, set, in-place change of a slice / builder / '
+        'list value, del, rebind map / serializer, serializer state; serialize on the object twice and on an equal fresh object; '
+        'VmStack containers extended in place and serialized again vs fresh equal containers), re-entrancy (outer dictionary whose '
+        'value serializer itself calls HashMap.serialize / parse / VmStack.serialize / to_boc / order for chosen leaves vs the same '
+        'objects prepared beforehand; nested value deserializers vs sequential reads). '
+        '3..30 ops (quick) / ..50 (thorough), macros force derive->mutate, end_cell->store, '
+        'order;order, VmTuple, new->serialize->change->serialize and parse->serialize->read-a-value->serialize sequences. The invariant (all cells == snapshot, untouched slices/builders unchanged, '
         'arguments unchanged) is evaluated after every op, i.e. every cell is observed after every op. '
         'non-trivial = a slice/builder derived from a cell (or the builder a cell came from) was mutated by an op the '
         'static length model predicts to succeed, or a cell was built from a plain bitarray of non-byte-aligned '
-        'length; distinct = distinct program. Enumerated: every length 0..1023 x {plain, TvmBitarray} x 2 fills x '
+        'length, or a HashMap object is serialized again after an in-place change of a value / serializer state, or a leaf follows '
+        '(in key order) the first leaf whose serializer calls the library; distinct = distinct program. Enumerated: reuse grid '
+        '(value kind x position x change x 1-2 earlier serializations; parsed dictionary re-written after reading the k-th value; '
+        'two objects alternately; inner call kind x which leaves nest x widths; stack containers); Enumerated: every length 0..1023 x {plain, TvmBitarray} x 2 fills x '
         '{leaf, with refs}; grid construction route x derivation chain x mutation. history-independence: setup + '
         'observation + prefix program on other objects, observation compared fresh / after prefix / in a rebuilt world')
 ASSUMPTIONS = ['Cell.hash identifies a cell (used to compare children and to count distinct cells of a DAG)',
@@ -515,8 +545,12 @@ def _opname(op):
                 'vmwin': 'vmstack-parse-of-windowed-slice'}.get(w, w)
     if k == 'vmstack':
         return 'VmStack.serialize'
-    if k == 'hashmap':
+    if k in ('hashmap', 'hm_ser'):
         return 'HashMap.serialize'
+    if k == 'nested':
+        return 'HashMap.serialize(nested)'
+    if k in ('hm_new', 'hm_set', 'hm_edit'):
+        return 'HashMap.' + (op.get('how') or k[3:])
     return k
 
 
@@ -527,6 +561,7 @@ class _World:
         self.L = _Lib()
         self.m = _Model()              # pool sizes / index resolution only
         self.cells, self.slices, self.builders = [], [], []
+        self.maps = []                 # long-lived HashMap objects the caller keeps and serializes several times
         self.frozen_s, self.frozen_b = set(), set()
         self.order_calls = 0
         self.i = -1
@@ -695,6 +730,7 @@ class _World:
         self.m.c.extend({'nb': None, 'nr': None, 'route': '?', 'roots': set()} for _ in range(len(self.cells) - len(self.m.c)))
         self.m.s.extend({'nb': None, 'nr': None, 'roots': set()} for _ in range(len(self.slices) - len(self.m.s)))
         self.m.b.extend({'nb': None, 'nr': None, 'roots': set(), 'ended': set()} for _ in range(len(self.builders) - len(self.m.b)))
+        self.m.h.extend({} for _ in range(len(self.maps) - len(self.m.h)))
 
     def observe(self, op):
         """(canonical result, Fail|None) of an observation op (obs / vmstack / hashmap), invariant included"""
@@ -1079,6 +1115,10 @@ class _World:
         if t == 'builder':
             roots |= self.builders[v['i']]['roots'] | self.builders[v['i']]['ended']
             return self.builders[v['i']]['o']
+        if t == 'ints':                       # a list the caller owns (a mutable value of a dictionary)
+            return [int(x) for x in v['v']]
+        if t == 'own_slice':                  # a slice nobody else holds
+            return self.L.Builder().store_bits(_bits(v['b'])).to_slice()
         if t == 'tuple':
             return self.L.VmTuple([self._build_val(x, roots) for x in v['items']])
         if t == 'list':
@@ -1144,8 +1184,34 @@ class _World:
 
     def _do_vmstack(self, op):
         roots = set()
+        L = self.L
         data = [self._build_val(v, roots) for v in op['items']]
-        return self._serialize_twice('VmStack.serialize', data, lambda: self.L.VmStack.serialize(data), roots, 'vmstack')
+        f, t, canon = self._serialize_twice('VmStack.serialize', data, lambda: L.VmStack.serialize(data), roots, 'vmstack')
+        if f is not None:
+            return f, t, canon
+
+        # the caller goes on using its containers (every list / VmTuple gets one more entry) and serializes them again: the result
+        # is that of equal containers that were never serialized
+        def grow(x):
+            if isinstance(x, (list, L.VmTuple)):
+                lst = x if isinstance(x, list) else x.list
+                for y in list(lst):
+                    grow(y)
+                lst.append(5)
+        grow(data)
+        again = [self._build_val(v, set()) for v in op['items']]
+        grow(again)
+        ok1, r1 = call(lambda: L.VmStack.serialize(data))
+        ok2, r2 = call(lambda: L.VmStack.serialize(again))
+        c1, c2 = self._outcome(ok1, r1), self._outcome(ok2, r2)
+        if c1 != c2:
+            return Fail('VmStack.serialize/history-dependent', f'{self._at()}: containers that were serialized, then extended in place, give '
+                        f'{_clip(c1)}; equal containers that were never serialized give {_clip(c2)}'), None, canon
+        return None, None, canon
+
+    @staticmethod
+    def _outcome(ok, r):
+        return ('raised',) if not ok else ('none',) if r is None else ('cell', r.hash.hex()) if hasattr(r, 'hash') else ('value', repr(r))
 
     def _do_hashmap(self, op):
         L = self.L
@@ -1172,6 +1238,304 @@ class _World:
                     hm.set_int_key(key, val)
                 return hm.serialize()
         return self._serialize_twice('HashMap.serialize', d, f, roots, 'hashmap')
+
+
+    # ---- a HashMap OBJECT the caller keeps: built once, edited, serialized several times
+    def _mk_ser(self, e):
+        """value serializer of map entry e: writes what the value holds NOW (and the 4-bit `salt` the caller may have set)"""
+        L = self.L
+
+        def ser(src, dest):
+            if e['salt'] is not None:
+                dest.store_uint(e['salt'], 4)
+            if isinstance(src, L.Slice):
+                return dest.store_slice(src)
+            if isinstance(src, L.Builder):
+                return dest.store_cell(src.end_cell())
+            if isinstance(src, list):
+                return dest.store_uint(sum(src) % 65536, 16).store_uint(len(src) % 256, 8)
+            if src is None:
+                return dest
+            return dest.store_cell(src)
+        return ser
+
+    @staticmethod
+    def _pooled(v):
+        return (v['t'][0], v['i']) if v['t'] in ('slice', 'builder') else None
+
+    def _do_hm_new(self, op):
+        L = self.L
+        kl = op['kl']
+        e = {'o': None, 'kl': kl, 'salt': None, 'ser': None, 'nser': 0, 'pooled': {}, 'roots': set()}
+        if op.get('ser') != 'default':
+            e['ser'] = self._mk_ser(e)
+        via = op.get('via', 'map_')
+        hm = None
+        if via == 'from_cell':                # the values are the slices the library hands out
+            ci = op['c']
+            ok, hm = call(L.HashMap.from_cell, self.cells[ci]['o'], kl)
+            if ok and isinstance(hm, L.HashMap) and isinstance(hm.map, dict) and all(isinstance(k, int) for k in hm.map):
+                hm.value_serializer = e['ser']
+                e['roots'] = {ci} | self.cells[ci]['roots']
+            else:
+                hm = None
+        if hm is None:
+            vals = {}
+            for key, v in (op['items'] if via != 'from_cell' else []):
+                key %= 1 << kl
+                vals[key] = self._build_val(v, e['roots'])
+                e['pooled'][key] = self._pooled(v)
+            if via == 'set':
+                hm = L.HashMap(kl, value_serializer=e['ser'])
+                for key, val in vals.items():
+                    hm.set_int_key(key, val)
+            else:
+                hm = L.HashMap(kl, value_serializer=e['ser'], map_=vals)
+        e['o'] = hm
+        self.maps.append(e)
+        return None, None, None
+
+    def _is_frozen(self, pooled):
+        return pooled is not None and pooled[1] in (self.frozen_s if pooled[0] == 's' else self.frozen_b)
+
+    def _do_hm_set(self, op):
+        e = self.maps[op['h']]
+        hm = e['o']
+        keys = sorted(hm.map)
+        key = keys[op['at'] % len(keys)] if (op.get('at') is not None and keys) else op['key'] % (1 << e['kl'])
+        val = self._build_val(op['v'], e['roots'])
+        ok, _ = call(hm.set_int_key, key, val)
+        if ok:
+            e['pooled'][key] = self._pooled(op['v'])
+        return None, None, None
+
+    def _do_hm_edit(self, op):
+        """what a caller legitimately does to a dictionary object (or to the values in it) between two serialize() calls"""
+        L = self.L
+        e = self.maps[op['h']]
+        hm = e['o']
+        how, n = op['how'], op.get('n', 1)
+        keys = sorted(hm.map)
+        key = keys[op.get('k', 0) % len(keys)] if keys else None
+        touched = None
+        if how == 'touch' and key is not None:            # a mutable VALUE changes in place; the map is not touched
+            v = hm.map[key]
+            pooled = e['pooled'].get(key)
+            if self._is_frozen(pooled):
+                return None, None, None
+            if isinstance(v, L.Slice):
+                call(lambda: v.load_bits(min(max(1, n), len(v.bits))))
+            elif isinstance(v, L.Builder):
+                call(lambda: v.store_uint(n % 2, 1))
+            elif isinstance(v, list):
+                v.append(n % 251)
+            if pooled is not None:
+                touched = (pooled[0], pooled[1])
+        elif how == 'del' and key is not None:
+            del hm.map[key]
+            e['pooled'].pop(key, None)
+        elif how == 'rebind_map':                         # the public attribute is replaced by an equal dict
+            hm.map = dict(hm.map)
+        elif how == 'rebind_ser':                         # ... the serializer by another callable that does the same
+            e['ser'] = self._mk_ser(e)
+            hm.value_serializer = e['ser']
+        elif how == 'salt':                               # state the serializer closes over
+            e['salt'] = n % 16
+            if e['ser'] is None:
+                e['ser'] = self._mk_ser(e)
+                hm.value_serializer = e['ser']
+        return None, touched, None
+
+    def _do_hm_ser(self, op):
+        L = self.L
+        e = self.maps[op['h']]
+        hm = e['o']
+        before = self._argsnap(hm.map)
+        outs = []
+        r_first = None
+        for rep in range(2):
+            ok, r = call(hm.serialize)
+            if rep == 0 and ok and isinstance(r, L.Cell):
+                r_first = r
+            outs.append(self._outcome(ok, r))
+            if ok:
+                d = self._argdiff(before, self._argsnap(hm.map))
+                if d is not None:
+                    return Fail(f'argument-mutated/HashMap.serialize/{d}', f'{self._at()}: the map of HashMap #{op["h"]} differs after '
+                                f'serialize(): {_clip(before, 200)} -> {_clip(self._argsnap(hm.map), 200)}'), None, None
+        f = None
+        if outs[0] != outs[1]:
+            f = Fail('HashMap.serialize/not-idempotent', f'{self._at()}: two consecutive calls on HashMap #{op["h"]} gave {outs[0]} and {outs[1]}')
+        else:
+            # an equal dictionary object that was never serialized (same key size, same serializer, same values under the same keys)
+            if op.get('fresh', 0) % 2 == 0:
+                ok, fresh = call(lambda: L.HashMap(e['kl'], value_serializer=e['ser'], map_=dict(hm.map)))
+            else:
+                def build():
+                    x = L.HashMap(e['kl'], value_serializer=e['ser'])
+                    for key, val in hm.map.items():
+                        x.set_int_key(key, val)
+                    return x
+                ok, fresh = call(build)
+            if ok:
+                ok3, r3 = call(fresh.serialize)
+                c3 = self._outcome(ok3, r3)
+                if c3 != outs[0]:
+                    f = Fail('HashMap.serialize/history-dependent',
+                             f'{self._at()}: HashMap #{op["h"]} ({len(hm.map)} entries, serialized {e["nser"]} time(s) before) gives '
+                             f'{_clip(outs[0])}; an equal HashMap that was never serialized gives {_clip(c3)}')
+        e['nser'] += 1
+        cell = r_first if r_first is not None else L.Builder().end_cell()
+        f2 = self._add_cell(cell, 'hm_ser', e['roots'])
+        return f or f2, None, outs[0]
+
+    # ---- a library call made from inside a callback of another library call
+    def _do_nested(self, op):  # noqa: C901
+        """Outer dictionary key -> (W-bit value, 8-bit tag, Maybe ^inner); the inner object of a leaf is produced by a library call.
+        `nested`: that call is made by the outer value serializer while the outer serialize() runs; `flat`: all inner objects are
+        produced beforehand, the serializer only stores them.  Same arguments, same result - and the same read back."""
+        L = self.L
+        K, W, IK, IW, kind = op['kl'], op['w'], op['ikl'], op['iw'], op['inner']
+        omap, nestmap = {}, {}
+        for key, v, nest in op['items']:
+            if v not in nestmap:
+                omap[key % (1 << K)] = v
+                nestmap[v] = bool(nest)
+        nestmap = {v: nestmap[v] for v in omap.values()}
+        pc = self.cells[op['c']]['o'] if op.get('c') is not None else L.Builder().store_uint(77, 9).end_cell()
+
+        def small(v):
+            return L.Builder().store_uint(v % 65536, 16).end_cell()
+
+        def uint_dict(v):
+            return L.HashMap(IK).with_uint_values(IW).set_int_key(v % (1 << IK), v % (1 << IW)) \
+                .set_int_key((v + 1) % (1 << IK), (v * 7 + 1) % (1 << IW)).serialize()
+        prep = {}
+        if kind == 'parse':
+            ok, prep = call(lambda: {v: uint_dict(v) for v in nestmap})
+            if not ok:
+                return self._nested_done(None, None)
+
+        def nest_of(v):
+            return v > 0 and nestmap.get(v, v % 4 != 0) if kind == 'recursive' else nestmap.get(v, False)
+
+        def inner_of(v):                                   # (tag, cell | None) - library calls
+            if kind == 'uint-dict':
+                return 2, uint_dict(v)
+            if kind == 'cell-dict':                        # default value serializer (store_cell), as the outer one takes cells
+                return 4, L.HashMap(IK).set_int_key(v % (1 << IK), small(v)).set_int_key((v + 1) % (1 << IK), small(v + 1)).serialize()
+            if kind == 'parse':
+                return len(L.HashMap.parse(prep[v].begin_parse(), IK)), prep[v]
+            if kind == 'vmstack':
+                return 1, L.VmStack.serialize([v, L.VmTuple([v, small(v)])])
+            if kind == 'boc':
+                return 3, L.Cell.one_from_boc(pc.to_boc(hash_crc32=bool(v % 2)))
+            if kind == 'order':
+                return len(pc.order()) % 256, small(v)
+            raise ValueError(kind)
+
+        def mk_ser(get_inner):
+            def ser(src, dest):
+                v = vof[src.hash] if kind == 'cell-dict' else src
+                if kind == 'cell-dict':
+                    dest.store_ref(src)
+                else:
+                    dest.store_uint(v % (1 << W), W)
+                if nest_of(v):
+                    t, c = get_inner(v)
+                    return dest.store_uint(t % 256, 8).store_dict(c)
+                return dest.store_uint(0, 8).store_dict(None)
+            return ser
+
+        vof = {small(v).hash: v for v in omap.values()} if kind == 'cell-dict' else {}
+
+        def outer(ser):
+            vals = {key: (small(v) if kind == 'cell-dict' else v) for key, v in omap.items()}
+            return L.HashMap(K, value_serializer=ser, map_=vals).serialize()
+
+        if kind == 'recursive':
+            def rec_nested(src, dest):                     # the serializer serializes a dictionary that uses this serializer
+                dest.store_uint(src % (1 << W), W)
+                if nest_of(src):
+                    return dest.store_uint(9, 8).store_dict(L.HashMap(IK, value_serializer=rec_nested).set_int_key(0, src // 4).serialize())
+                return dest.store_uint(0, 8).store_dict(None)
+            ready = {}
+
+            def rec_flat(src, dest):
+                dest.store_uint(src % (1 << W), W)
+                if nest_of(src):
+                    return dest.store_uint(9, 8).store_dict(ready[src])
+                return dest.store_uint(0, 8).store_dict(None)
+
+            def prepare(v):                                # bottom up: no serialize() runs inside another
+                if nest_of(v) and v not in ready:
+                    prepare(v // 4)
+                    ready[v] = L.HashMap(IK, value_serializer=rec_flat).set_int_key(0, v // 4).serialize()
+
+            def run_flat():
+                for v in omap.values():
+                    prepare(v)
+                return outer(rec_flat)
+
+            def run_nested():
+                return outer(rec_nested)
+        else:
+            def run_flat():
+                ready = {v: inner_of(v) for v in omap.values() if nest_of(v)}
+                return outer(mk_ser(ready.__getitem__))
+
+            def run_nested():
+                return outer(mk_ser(inner_of))
+
+        def plain():
+            return L.HashMap(8).with_uint_values(8).set_int_key(5, 7).set_int_key(6, 9).serialize().hash
+
+        p0 = call(plain)
+        ok1, f1 = call(run_flat)
+        ok2, n1 = call(run_nested)
+        p1 = call(plain)
+        ok3, f2 = call(run_flat)
+        cf1, cn, cf2 = self._outcome(ok1, f1), self._outcome(ok2, n1), self._outcome(ok3, f2)
+        descr = f'{kind}: outer {K}-bit keys {sorted(omap)} (nesting leaves: {[k for k in sorted(omap) if nest_of(omap[k])]})'
+        if cn != cf1:
+            return self._nested_done(n1 if ok2 else None, Fail(
+                'HashMap.serialize/depends-on-a-call-made-inside-its-value-serializer',
+                f'{self._at()} {descr}: with the inner objects produced inside the value serializer {_clip(cn)}, with the same objects '
+                f'produced beforehand {_clip(cf1)}'), cn)
+        if cf2 != cf1 or p0 != p1:
+            return self._nested_done(n1 if ok2 else None, Fail(
+                'HashMap.serialize/history-dependent/after-a-nested-call',
+                f'{self._at()} {descr}: the same flat dictionary gives {_clip(cf1)} before and {_clip(cf2)} after the nested call '
+                f'(a fixed 2-entry dictionary: {_clip(p0)} / {_clip(p1)})'), cn)
+        f = None
+        if ok2 and isinstance(n1, L.Cell) and kind in ('uint-dict', 'parse'):
+            # read back: nested value deserializers (a dictionary parsed inside the value deserializer of another) against the
+            # same reads made one after the other
+            def read_nested(cs):
+                return cs.load_uint(W), cs.load_uint(8), cs.load_dict(IK, value_deserializer=lambda s: s.load_uint(IW))
+
+            def parse_nested():
+                return n1.begin_parse().load_hashmap(K, value_deserializer=read_nested)
+
+            def parse_flat():
+                out = {}
+                for key, cs in n1.begin_parse().load_hashmap(K).items():
+                    v, t, raw = cs.load_uint(W), cs.load_uint(8), cs.load_dict(IK)
+                    out[key] = (v, t, None if raw is None else {k2: s.load_uint(IW) for k2, s in raw.items()})
+                return out
+            a, b, a2 = call(parse_nested), call(parse_flat), call(parse_nested)
+            ca, cb, ca2 = [(ok, repr(r) if ok else None) for ok, r in (a, b, a2)]
+            if ca != cb or ca != ca2:
+                f = Fail('HashMap.parse/depends-on-a-call-made-inside-its-value-deserializer',
+                         f'{self._at()} {descr}: nested deserializers {_clip(ca, 200)}; the same reads one after the other {_clip(cb, 200)}; '
+                         f'nested again {_clip(ca2, 200)}')
+        return self._nested_done(n1 if ok2 else None, f, cn)
+
+    def _nested_done(self, cell, f, canon=None):
+        """exactly one cell enters the pool"""
+        L = self.L
+        f2 = self._add_cell(cell if isinstance(cell, L.Cell) else L.Builder().end_cell(), 'nested', ())
+        return f or f2, None, canon
 
 
 # --------------------------------------------------------------------------------------------------
@@ -1441,6 +1805,72 @@ def _g_hashmap(draw, m):
     return op
 
 
+NESTED_KINDS = ('uint-dict', 'cell-dict', 'recursive', 'parse', 'vmstack', 'boc', 'order')
+HM_EDITS = ('touch', 'touch', 'touch', 'del', 'rebind_map', 'rebind_ser', 'salt')
+
+
+def _g_hmval(draw, m):
+    kinds = ['ints', 'own_slice', 'own_slice', 'null']
+    if m.c:
+        kinds += ['cell']
+    if m.s:
+        kinds += ['slice', 'slice']
+    if m.b:
+        kinds += ['builder']
+    t = draw(st.sampled_from(kinds))
+    if t == 'ints':
+        return {'t': 'ints', 'v': draw(st.lists(st.integers(0, 300), max_size=3))}
+    if t == 'own_slice':
+        return {'t': 'own_slice', 'b': _bitspec(draw, cap=200, small=draw(st.booleans()))}
+    if t == 'null':
+        return {'t': 'null'}
+    return {'t': t, 'i': _idx(draw, len({'cell': m.c, 'slice': m.s, 'builder': m.b}[t]))}
+
+
+def _g_hm_new(draw, m, via=None):
+    kl = draw(st.sampled_from([1, 2, 8, 8, 16, 32, 256]))
+    n = draw(st.sampled_from([1, 1, 2, 2, 3, 5]))
+    keys = draw(st.lists(st.integers(0, (1 << kl) - 1), min_size=min(n, 1 << kl), max_size=min(n, 1 << kl), unique=True))
+    items = [[key, _g_hmval(draw, m)] for key in keys]
+    op = {'op': 'hm_new', 'kl': kl, 'items': items, 'via': via or draw(st.sampled_from(['map_', 'map_', 'set']))}
+    if all(v['t'] == 'cell' for _, v in items) and draw(st.booleans()):
+        op['ser'] = 'default'
+    return op
+
+
+def _g_hm_set(draw, m, h):
+    same = draw(st.booleans())
+    return {'op': 'hm_set', 'h': h, 'key': draw(st.integers(0, (1 << 256) - 1)), 'at': draw(st.integers(0, 5)) if same else None,
+            'v': _g_hmval(draw, m)}
+
+
+def _g_hm_edit(draw, m, h, how=None):
+    return {'op': 'hm_edit', 'h': h, 'how': how or draw(st.sampled_from(HM_EDITS)), 'k': draw(st.integers(0, 5)),
+            'n': draw(st.sampled_from([1, 1, 2, 7, 8, 15]))}
+
+
+def _g_hm_ser(draw, m, h):
+    return {'op': 'hm_ser', 'h': h, 'fresh': draw(st.integers(0, 1))}
+
+
+def _g_nested(draw, m, kind=None):
+    kl = draw(st.sampled_from([2, 4, 8, 8, 32]))
+    n = draw(st.sampled_from([1, 2, 3, 3, 4, 5]))
+    keys = draw(st.lists(st.integers(0, (1 << kl) - 1), min_size=min(n, 1 << kl), max_size=min(n, 1 << kl), unique=True))
+    vals = draw(st.lists(st.integers(0, 60000), min_size=len(keys), max_size=len(keys), unique=True))
+    pattern = draw(st.sampled_from(['all', 'all', 'first', 'some', 'some', 'last', 'none']))
+    order = sorted(range(len(keys)), key=lambda i: keys[i])
+    nest = {}
+    for rank, i in enumerate(order):
+        nest[i] = {'all': True, 'none': False, 'first': rank == 0, 'last': rank == len(order) - 1}.get(pattern)
+        if nest[i] is None:
+            nest[i] = draw(st.booleans())
+    w, iw = draw(st.sampled_from([(8, 32), (8, 8), (32, 8), (16, 16), (1, 64)]))
+    return {'op': 'nested', 'kl': kl, 'items': [[keys[i], vals[i], nest[i]] for i in range(len(keys))], 'w': w, 'iw': iw,
+            'ikl': draw(st.sampled_from([1, 8, 16, 16, 64])), 'inner': kind or draw(st.sampled_from(NESTED_KINDS)),
+            'c': _idx(draw, len(m.c)) if m.c else 0}
+
+
 def _hm_label(nbits, key):
     """hml_short label for the remaining `nbits` key bits"""
     return '0' + '1' * nbits + '0' + format(key, f'0{nbits}b') if nbits else '00'
@@ -1465,9 +1895,11 @@ _MSG_EXT = '10' + '00' + '10' + '0' + '00000000' + '01' * 128 + '0000' + '0' + '
 
 def _kinds(m):
     k = [('cell', 6), ('new_builder', 1), ('vmstack', 2), ('hashmap', 1), ('M_plain_na', 2), ('M_dict', 1), ('M_vmtuple', 2),
-         ('M_msg', 1)]
+         ('M_msg', 1), ('hm_new', 1), ('nested', 2), ('M_hm_cycle', 2)]
     if m.c:
-        k += [('derive', 5), ('obs', 8), ('M_parse_load', 4), ('M_tobuilder_store', 4), ('M_order2', 3)]
+        k += [('derive', 5), ('obs', 8), ('M_parse_load', 4), ('M_tobuilder_store', 4), ('M_order2', 3), ('M_hm_reparse', 1)]
+    if m.h:
+        k += [('hm_set', 1), ('hm_edit', 3), ('hm_ser', 3)]
     if m.s:
         k += [('sderive', 3), ('load', 7)]
     if m.b:
@@ -1497,6 +1929,31 @@ def _emit(draw, m, kind):
         return [_g_vmstack(draw, m)]
     if kind == 'hashmap':
         return [_g_hashmap(draw, m)]
+    if kind == 'hm_new':
+        return [_g_hm_new(draw, m)]
+    if kind == 'hm_set':
+        return [_g_hm_set(draw, m, _idx(draw, len(m.h)))]
+    if kind == 'hm_edit':
+        return [_g_hm_edit(draw, m, _idx(draw, len(m.h)))]
+    if kind == 'hm_ser':
+        return [_g_hm_ser(draw, m, _idx(draw, len(m.h)))]
+    if kind == 'nested':
+        return [_g_nested(draw, m)]
+    if kind == 'M_hm_cycle':                  # build, write, change (the map or a value in it), write again
+        h = len(m.h)
+        ops = [_g_hm_new(draw, m)] + [_g_hm_ser(draw, m, h) for _ in range(draw(st.sampled_from([1, 1, 2])))]
+        for _ in range(draw(st.sampled_from([1, 1, 2]))):
+            ops.append(_g_hm_set(draw, m, h) if draw(st.integers(0, 4)) == 0 else _g_hm_edit(draw, m, h))
+        return ops + [_g_hm_ser(draw, m, h)]
+    if kind == 'M_hm_reparse':                # read / modify / write: a dictionary cell is parsed into a HashMap (values = slices)
+        kl = draw(st.sampled_from([2, 8, 8, 16]))
+        keys = draw(st.lists(st.integers(0, (1 << kl) - 1), min_size=1, max_size=4, unique=True))
+        src = {'op': 'hm_new', 'kl': kl, 'via': 'map_', 'items': [[key, {'t': 'own_slice', 'b': [draw(st.integers(1, 40)), 2, draw(_seed)]}] for key in keys]}
+        h = len(m.h)
+        ops = [src, {'op': 'hm_ser', 'h': h, 'fresh': 0}, {'op': 'hm_new', 'kl': kl, 'via': 'from_cell', 'c': len(m.c), 'items': []}]
+        ops += [_g_hm_ser(draw, m, h + 1) for _ in range(draw(st.sampled_from([0, 1, 1, 2])))]
+        ops += [_g_hm_edit(draw, m, h + 1, how=draw(st.sampled_from(['touch', 'touch', 'del', 'salt'])))]
+        return ops + [_g_hm_ser(draw, m, h + 1)]
     if kind == 'M_plain_na':
         op = _g_cell(draw, m, route='plain', nonaligned=True)
         return [op, {'op': 'obs', 'what': draw(st.sampled_from(['boc', 'hash', 'repr_hash', 'order'])), 'c': len(m.c), 'k': 0}]
@@ -1562,7 +2019,7 @@ def strat_programs(tier):
 def _history(draw, cap):
     m = _Model()
     setup = _draw_ops(draw, m, draw(st.sampled_from([1, 2, 3, 4, 6, 8])), cap // 2)
-    kind = draw(st.sampled_from(['boc', 'boc', 'order', 'order', 'order', 'dict', 'vmstack', 'vmstack', 'hashmap', 'hash', 'repr_hash', 'str']))
+    kind = draw(st.sampled_from(['boc', 'boc', 'order', 'order', 'order', 'dict', 'vmstack', 'vmstack', 'hashmap', 'hash', 'repr_hash', 'str', 'nested']))
     if not m.c and kind not in ('vmstack', 'hashmap'):
         op = _g_cell(draw, m)
         m.apply(op)
@@ -1571,6 +2028,8 @@ def _history(draw, cap):
         obs = _g_vmstack(draw, m, force_tuple=draw(st.booleans()))
     elif kind == 'hashmap':
         obs = _g_hashmap(draw, m)
+    elif kind == 'nested':
+        obs = _g_nested(draw, m)
     else:
         obs = _g_obs(draw, m, what=kind)
     m.apply(obs)
@@ -1701,6 +2160,77 @@ def enum_grid(tier):
 
 
 # --------------------------------------------------------------------------------------------------
+# designed histories: one dictionary object written several times; a library call inside a callback of another
+
+def enum_reuse(tier):
+    base = [{'op': 'cell', 'route': 'builder', 'b': '10110', 'r': []},
+            {'op': 'cell', 'route': 'builder', 'b': [77, 3, 5], 'r': [0]},
+            {'op': 'derive', 'how': 'begin_parse', 'c': 1},            # slice #0 (77 bits, 1 ref)
+            {'op': 'derive', 'how': 'to_builder', 'c': 0},             # builder #2 (builders #0, #1: the cells' own)
+            {'op': 'derive', 'how': 'begin_parse', 'c': 0}]            # slice #1
+    values = {'own_slice': {'t': 'own_slice', 'b': [24, 2, 3]}, 'pooled_slice': {'t': 'slice', 'i': 0},
+              'pooled_builder': {'t': 'builder', 'i': 2}, 'ints': {'t': 'ints', 'v': [1, 2]}, 'cell': {'t': 'cell', 'i': 0}}
+    tail = [{'op': 'obs', 'what': 'hash', 'c': 1}, {'op': 'obs', 'what': 'boc', 'c': 1, 'k': 0}]
+    # (a) a HashMap object: new -> serialize x nser -> one change -> serialize; every kind of value x every kind of change x position
+    for vname, v in values.items():
+        for via in ('map_', 'set'):
+            for nser in (1, 2):
+                for pos in (0, 1, 2):
+                    items = [[3, {'t': 'own_slice', 'b': '1011'}], [77, {'t': 'ints', 'v': [9]}], [200, {'t': 'cell', 'i': 1}]]
+                    items[pos] = [items[pos][0], v]
+                    head = base + [{'op': 'hm_new', 'kl': 8, 'items': items, 'via': via}] + [{'op': 'hm_ser', 'h': 0, 'fresh': i} for i in range(nser)]
+                    changes = [[{'op': 'hm_edit', 'h': 0, 'how': how, 'k': pos, 'n': 8}] for how in ('touch', 'del', 'rebind_map', 'rebind_ser', 'salt')]
+                    changes += [[{'op': 'hm_set', 'h': 0, 'key': 0, 'at': pos, 'v': {'t': 'own_slice', 'b': '111'}}],
+                                [{'op': 'hm_set', 'h': 0, 'key': 100, 'at': None, 'v': v}],
+                                [{'op': 'hm_edit', 'h': 0, 'how': 'touch', 'k': pos, 'n': 3}, {'op': 'hm_edit', 'h': 0, 'how': 'touch', 'k': pos, 'n': 1}]]
+                    if vname == 'pooled_slice':          # the value is advanced through the caller's other handle on it
+                        changes += [[{'op': 'load', 's': 0, 'm': 'bits', 'n': 9}], [{'op': 'load', 's': 0, 'm': 'ref'}]]
+                    if vname == 'pooled_builder':
+                        changes += [[{'op': 'store', 'b': 2, 'm': 'bit', 'v': 1}], [{'op': 'store', 'b': 2, 'm': 'ref', 'x': 0}]]
+                    for ch in changes:
+                        yield {'ops': head + ch + [{'op': 'hm_ser', 'h': 0, 'fresh': nser % 2}] + tail}
+    # (b) read / modify / write: a dictionary cell parsed into a HashMap, k-th value read further, written again
+    for n in (1, 2, 3, 5):
+        src = {'op': 'hm_new', 'kl': 8, 'via': 'map_', 'items': [[(37 * j + 1) % 256, {'t': 'own_slice', 'b': [16 + j, 2, j]}] for j in range(n)]}
+        for nser in (0, 1, 2):
+            for pos in range(n):
+                for how in ('touch', 'del', 'salt'):
+                    yield {'ops': base + [src, {'op': 'hm_ser', 'h': 0}, {'op': 'hm_new', 'kl': 8, 'via': 'from_cell', 'c': 2, 'items': []}]
+                           + [{'op': 'hm_ser', 'h': 1, 'fresh': i} for i in range(nser)]
+                           + [{'op': 'hm_edit', 'h': 1, 'how': how, 'k': pos, 'n': 8}, {'op': 'hm_ser', 'h': 1, 'fresh': 1}] + tail}
+    # (c) two HashMap objects written alternately (same serializer kind, same key size, different content)
+    for v1 in ('own_slice', 'ints'):
+        for v2 in ('own_slice', 'cell'):
+            yield {'ops': base + [{'op': 'hm_new', 'kl': 8, 'items': [[1, values[v1]]], 'via': 'map_'},
+                                  {'op': 'hm_new', 'kl': 8, 'items': [[1, values[v2]], [2, values[v1]]], 'via': 'set'},
+                                  {'op': 'hm_ser', 'h': 0}, {'op': 'hm_ser', 'h': 1}, {'op': 'hm_ser', 'h': 0},
+                                  {'op': 'hm_edit', 'h': 1, 'how': 'touch', 'k': 1, 'n': 4}, {'op': 'hm_ser', 'h': 1}, {'op': 'hm_ser', 'h': 0}] + tail}
+    # (d) a library call inside the value serializer: every kind of inner call x which leaves nest x widths equal / different
+    for kind in NESTED_KINDS:
+        for kl in (2, 8):
+            for n in (1, 2, 3, 4):
+                pats = {'all': [True] * n, 'first': [True] + [False] * (n - 1), 'last': [False] * (n - 1) + [True], 'none': [False] * n}
+                if n >= 3:
+                    pats['middle'] = [False, True] + [False] * (n - 2)
+                    pats['ends'] = [True] + [False] * (n - 2) + [True]
+                for pname, pat in pats.items():
+                    for w, iw in ((8, 32), (8, 8), (32, 8)):
+                        if (pname, w) in (('none', 32), ('last', 32)) or (n == 1 and w != 8):
+                            continue
+                        # odd values not divisible by 4 (recursive: they nest one level deeper), distinct
+                        items = [[j, 1001 + 6 * j + (4 if (1001 + 6 * j) % 4 == 0 else 0), pat[j]] for j in range(n)]
+                        yield {'ops': base[:2] + [{'op': 'nested', 'kl': kl, 'items': items, 'w': w, 'iw': iw, 'ikl': 16, 'inner': kind, 'c': 1},
+                                                  {'op': 'obs', 'what': 'dict', 'c': 2, 'k': [1, kl]}] + tail}
+    # (e) the caller's stack containers serialized, extended in place, serialized again (see _do_vmstack)
+    one = {'t': 'int', 'v': '7'}
+    for inner in ([], [one], [one, {'t': 'cell', 'i': 0}], [{'t': 'slice', 'i': 0}, one, one], [{'t': 'tuple', 'items': [one]}],
+                  [{'t': 'tuple', 'items': [one, {'t': 'tuple', 'items': [one, one]}]}, {'t': 'builder', 'i': 2}]):
+        for wrap in ('tuple', 'list'):
+            for before in ([], [one], [{'t': 'cell', 'i': 1}, one]):
+                yield {'ops': base + [{'op': 'vmstack', 'items': before + [{'t': wrap, 'items': inner}]}] + tail}
+
+
+# --------------------------------------------------------------------------------------------------
 # the result of to_boc does not depend on which to_boc variant was called on the same cell before
 
 def check_boc_order(case):
@@ -1764,6 +2294,9 @@ SUBCHECKS = [
         note='every length 0..1023 x {Cell(plain bitarray), Cell(TvmBitarray)} x {random, zero} bits, leaf or parent'),
     Sub('derive-mutate-grid', check_program, enum=enum_grid, classify=classify, nontrivial=nontrivial, shards=(8, 8),
         exhaustive=True, note='construction route x derivation chain x every load / store method, then observations'),
+    Sub('reuse-and-reentrancy-grid', check_program, enum=enum_reuse, classify=classify, nontrivial=nontrivial, shards=(8, 8),
+        exhaustive=True, note='a HashMap object serialized, changed (map edit / in-place change of a value / serializer state), serialized '
+                              'again vs an equal object never serialized; a library call made inside a value (de)serializer vs made beforehand'),
     Sub('programs-random', check_program, strategy=strat_programs, classify=classify, nontrivial=nontrivial,
         n=(8000, 100000), shards=(16, 48)),
     Sub('to_boc-order-independence', check_boc_order, enum=enum_boc_order, shards=(8, 16), exhaustive=True,
